@@ -66,7 +66,15 @@ func genC14(r *simrt.RNG, tier string, variant int) Plan {
 			Frame: 2 + r.Intn(14), Pos: Pick(r, cutPos)})
 	}
 	if r.Bool(0.3) {
-		p.Faults = append(p.Faults, Fault{Kind: "wstall", Dir: Pick(r, []string{"c2s", "s2c"}), Pipe: 0, Frame: -1, Phase: 5 + r.Intn(60), DurNs: int64(50e6)})
+		// the peer stops reading for a while (full send buffer): a writer blocks inside
+		// Write while holding the write lock; 3 s is far beyond every ping interval here
+		p.Faults = append(p.Faults, Fault{Kind: "wstall", Dir: Pick(r, []string{"c2s", "s2c"}), Pipe: 0, Frame: -1, Phase: 5 + r.Intn(60),
+			DurNs: Pick(r, []int64{int64(50e6), int64(3e9)})})
+		if p.Faults[len(p.Faults)-1].DurNs > int64(1e9) {
+			// keepalive must tolerate the stall: this is a slow peer, not a dead one
+			p.Clients[0].TimeoutNs = int64(20e9)
+			p.Params["long_stall"] = 1
+		}
 	}
 	p.Params["close_after"] = int64(r.Intn(3)) // 0: no close, 1: close at the end, 2: close mid-workload
 	return p
@@ -143,9 +151,26 @@ func runC14(e *Env, p *Plan) {
 	if !e.S.Settle(400 * time.Millisecond) {
 		return
 	}
+	if p.Param("long_stall", 0) > 0 {
+		if !e.S.Settle(4 * time.Second) {
+			return
+		}
+	}
 	e.N.Heal()
 	if !e.S.Settle(600 * time.Millisecond) {
 		return
+	}
+	// a connection that is still up (no fault killed it, nobody closed it) must not
+	// end inside a frame or message: a slow peer is no reason to truncate a message
+	for _, pipe := range w.WSPipes() {
+		for _, dir := range []string{"c2s", "s2c"} {
+			e.N.Lock()
+			alive, pending := pipe.Alive(), pipe.TapOf(dir).Pending()
+			e.N.Unlock()
+			if alive && pending {
+				e.Violate("C14.wire", "pipe c%d %s: the connection is up and idle but the byte stream ends inside a frame / fragmented message (truncated message)", pipe.ID, dir)
+			}
+		}
 	}
 	if p.Param("close_after", 0) >= 1 {
 		for _, c := range w.Clients {
